@@ -655,6 +655,24 @@ func (env *SpecEnv) call(x *SExpr) (sval, error) {
 		ks, vs := e.U.sortOf(mt.Key(), false), e.U.sortOf(mt.Elem(), false)
 		hasArr := e.family(env.cur, mapHasFam(ks, vs), arraySort(SInt, arraySort(ks, SBool)))
 		return sval{and(not(eq(m.t, intLit(0))), sel(sel(hasArr, m.t, arraySort(ks, SBool)), k.t, SBool)), types.Typ[types.Bool]}, nil
+	case "isvalueof":
+		// isvalueof(m, v): v is the value stored under some live key of map m
+		m, err := env.eval(args[0])
+		if err != nil {
+			return sval{}, err
+		}
+		v, err := env.eval(args[1])
+		if err != nil {
+			return sval{}, err
+		}
+		mt, ok := m.typ.Underlying().(*types.Map)
+		if !ok {
+			return sval{}, fmt.Errorf("isvalueof() on non-map")
+		}
+		ks, vs := e.U.sortOf(mt.Key(), false), e.U.sortOf(mt.Elem(), false)
+		hasArr := sel(e.family(env.cur, mapHasFam(ks, vs), arraySort(SInt, arraySort(ks, SBool))), m.t, arraySort(ks, SBool))
+		valArr := sel(e.family(env.cur, mapValFam(ks, vs), arraySort(SInt, arraySort(ks, vs))), m.t, arraySort(ks, vs))
+		return sval{Term{fmt.Sprintf("(exists ((q.mk %s)) (and (select %s q.mk) (= (select %s q.mk) %s)))", ks, hasArr.S, valArr.S, v.t.S), SBool}, types.Typ[types.Bool]}, nil
 	case "mapview":
 		// the whole (has,val) view of a map, for frame-style equalities
 		m, err := env.eval(args[0])
